@@ -103,16 +103,13 @@ Theorem C06_parse_work_call_linear : work_linear parse_work_call.
 Proof. exact parse_work_call_linear. Qed.
 Print Assumptions C06_parse_work_call_linear.
 
-(* ... but two shapes still double per level in the grammar as it is: nested macro calls m!(m!(...))
-   (ppcallprim's `&callsuffix`) ... *)
-Theorem C06_parse_work_macro_refuted : ~ work_linear parse_work_macro.
-Proof. exact parse_work_macro_refuted. Qed.
-Print Assumptions C06_parse_work_macro_refuted.
-Theorem C06_parse_work_macro_partial : forall n, 2 ^ Z.of_nat n <= parse_work_macro n.
-Proof. exact parse_work_macro_doubles. Qed.
-Print Assumptions C06_parse_work_macro_partial.
+(* ... macro calls m!(m!(...)): linear since /repo af8f8af (ppcallprim decides with a token lookahead) ... *)
+Theorem C06_parse_work_macro_linear : work_linear parse_work_macro.
+Proof. exact parse_work_macro_linear. Qed.
+Print Assumptions C06_parse_work_macro_linear.
 
-(* ... and assignments to a field of a call result, f(function() ... end).x = 1 (a side effect of the
+(* ... but one shape still doubles per level in the grammar as it is: assignments to a field of a call
+   result, f(function() ... end).x = 1 (a side effect of the
    order `call !(..) / Assign / call`; linear before 0a3ab95) *)
 Theorem C06_parse_work_assign_callidx_refuted : ~ work_linear parse_work_assign_callidx.
 Proof. exact parse_work_assign_callidx_refuted. Qed.
